@@ -135,8 +135,15 @@ def canon_key(t, init_scale_hash):
         return ("QBits", type(t).__name__, t.qtype.name, t.axis, tuple(t.shape), tuple(t.stride()), tuple(t._data.shape), tuple(t._data._data.shape),
                 tuple(t._scale.shape), str(t.dtype), t.device.type, t._group_size)
     sflag = content_hash_scale(t) == init_scale_hash
+    # the intercepted ops that work on raw codes (relu, lt, neg ...) silently assume positive scales: the sign pattern of the
+    # scale is therefore part of the key (a state with a negative or null scale has different futures)
+    if t._scale.device.type == "meta":
+        ssign = "meta"
+    else:
+        sc = t._scale.detach().to(torch.float32)
+        ssign = (bool((sc > 0).all()), bool((sc == 0).any()), bool(torch.isfinite(sc).all()))
     return ("QBytes", t.qtype.name, t.axis, tuple(t.shape), tuple(t.stride()), tuple(t._data.shape), tuple(t._data.stride()),
-            tuple(t._scale.shape), str(t.dtype), t.device.type, sflag, bool(t._data.is_contiguous()))
+            tuple(t._scale.shape), str(t.dtype), t.device.type, sflag, bool(t._data.is_contiguous()), ssign)
 
 
 def content_hash_scale(t):
